@@ -119,6 +119,8 @@ pub fn split_line(line: &str) -> (bool, &str, Option<&str>) {
 
 fn scheme_of_pattern(pat: &str) -> Scheme {
     // as written (an upper-case spelling falls under the degenerate spellings)
+    // (a trailing `*` adds nothing: `|http*://*` is the scheme-only rule `|http*://`)
+    let pat = if pat.len() > 1 && pat.ends_with("://*") { &pat[..pat.len() - 1] } else { pat };
     match pat {
         "|http://" => Scheme::Http,
         "|https://" => Scheme::Https,
